@@ -230,11 +230,19 @@ impl Property for C14 {
         40
     }
     fn strategy(&self, tier: Tier) -> BoxedStrategy<Json> {
+        self.strategy_for_shard(tier, 0)
+    }
+    fn shards(&self, _tier: Tier) -> usize {
+        18
+    }
+    fn strategy_for_shard(&self, tier: Tier, shard: usize) -> BoxedStrategy<Json> {
+        // shards 16 and 17 navigate: handles are read in mid-history (see HistCfg::w_navigate)
+        let w_navigate: u32 = if shard >= 16 { 5 } else { 0 };
         let max_ops = tier.pick(8usize, 24usize);
         (proptest::collection::vec(any::<u16>(), 0..(max_ops * 8 + 8)), any::<u16>())
             .prop_map(move |(genes, ob)| {
                 let mut g = Genes::new(genes);
-                let cfg = HistCfg { max_ops, safe_strings: true, w_struct: 9, w_attr: 3, w_chardata: 2, w_create: 5, huge_offsets: false, max_doc: 5, w_compound: 5, seams: false };
+                let cfg = HistCfg { max_ops, safe_strings: true, w_struct: 9, w_attr: 3, w_chardata: 2, w_create: 5, huge_offsets: false, max_doc: 5, w_compound: 5, seams: false, w_navigate, ..Default::default() };
                 let mut h = hist::gen_history(&mut g, &cfg);
                 // how often the caller looks: after every call (half of the histories), after every 2nd or 3rd, or only
                 // at the end (0) — edits that follow each other with no query between them are histories too
